@@ -197,9 +197,21 @@ package cose
 //@   requires @registered encregistered(alg)
 //@ func cose.Encrypt0.Encrypt
 //@   params e0 alg key payload aad
+//@   local c = extract0:call:cose.EncryptAlgorithm.NewCrypter#1
+//@   local ciphertext = addr:Alloc#3 | extract0:call:cose.Crypter.Encrypt#1
+//@   local err = extract1:call:cbor.Marshal#1 | extract1:call:cose.Encrypt0.additionalData#1 | extract1:call:cose.EncryptAlgorithm.NewCrypter#1 | extract2:call:cose.Crypter.Encrypt#1
+//@   local newUnprotected = extract1:call:cose.Crypter.Encrypt#1
+//@   local plaintext = extract0:call:cbor.Marshal#1
 //@   props C05 C10(sweep)
 //@   sweep bounds,panic,make,nilmem,div
 //@   requires @registered encregistered(alg)
+//@   callsites Crypter.Encrypt 1
+//@   callsites maps.Copy 1
+//@   callassert Marshal#1: @payload u(arg0) == u(payload)
+//@   callassert Crypter.Encrypt#1: @rand u(arg1) == u(rand.Reader)
+//@   callassert Crypter.Encrypt#1: @plain bytes(arg2) == bytes(plaintext) && u(recv) == u(c)
+//@   callassert maps.Copy#1: @iv u(arg0) == u(e0.Unprotected) && u(arg1) == u(newUnprotected)
+//@   ensures @ct ? err == nil ==> e0.Ciphertext != nil && bytes(*e0.Ciphertext) == bytes(ciphertext)
 
 // decoding a COSE header replaces both header maps by new ones holding only what was
 // decoded: nothing of a previously decoded object survives in a reused variable (C13)
